@@ -35,7 +35,13 @@ type Program struct {
 
 	parents map[ast.Node]ast.Node
 	cg      *CallGraph
+	// Renamed lists functions that were mapped back to their reference names.
+	Renamed []string
 }
+
+// CurrentProgram is the program loaded last (name canonicalisation hook for
+// helpers that only have a types.Func).
+var CurrentProgram *Program
 
 // GenFile describes a goyacc output file and its grammar.
 type GenFile struct {
@@ -50,8 +56,9 @@ type GenFile struct {
 type Func struct {
 	Prog   *Program
 	Pkg    *packages.Package
-	Name   string // e.g. parser.(*lexer).read, parser.(*lexer).lexHeredoc$1
+	Name   string // e.g. parser.(*lexer).read, parser.(*lexer).lexHeredoc$1 (reference-tree name)
 	Short  string // e.g. (*lexer).read
+	Actual string // the name in the analysed tree when it differs from Name
 	Decl   *ast.FuncDecl
 	Lit    *ast.FuncLit
 	Parent *Func
@@ -132,6 +139,9 @@ func Load(repo, goos, goarch string) (*Program, error) {
 		return nil, err
 	}
 	p.collectFuncs()
+	p.canonicaliseNames()
+	p.collectAllLits()
+	CurrentProgram = p
 	return p, nil
 }
 
@@ -244,7 +254,6 @@ func (p *Program) collectFuncs() {
 					f.Generated = true
 				}
 				p.addFunc(f)
-				p.collectLits(f, fd.Body)
 			}
 			// parent map for the whole file
 			var stack []ast.Node
@@ -259,6 +268,15 @@ func (p *Program) collectFuncs() {
 				stack = append(stack, n)
 				return true
 			})
+		}
+	}
+}
+
+func (p *Program) collectAllLits() {
+	decls := append([]*Func(nil), p.Funcs...)
+	for _, f := range decls {
+		if f.Decl != nil {
+			p.collectLits(f, f.Decl.Body)
 		}
 	}
 }
